@@ -123,7 +123,9 @@ class C11RoundTrip(Machine):
             mw = max(rays)
             for k in rng.pick([["a"], ["a", "b"], ["b"], []]):
                 extra[k] = rng.chance(0.5) if rng.chance(0.5) else [rng.chance(0.5) for _ in range(mw)]
-            trig = {"type": "dict", "global": glob, "extra": extra}
+            # per-waveform verdicts may come as any indexable sequence of bools
+            trig = {"type": "dict", "global": glob, "extra": extra,
+                    "seq_as": rng.pick(["list", "list", "tuple", "ndarray"])}
         else:
             trig = {"type": "bool", "global": glob}
         return {"tag": self.next_tag, "np": rng.randint(1, 4), "rays": rays, "trig": trig,
